@@ -40,4 +40,4 @@ Deliverables - write them into {wt}/_out/ (create it):
   {wt}/_out/A/demo.py
   {wt}/_out/A/notes.md     (3-8 lines: what the change is, which part of the property it breaks, what exactly is needed for it to manifest, and the commands you ran with their results: test suite with change, demo with and without change)
   and the same under {wt}/_out/B/ (and C/ ... if more).
-Work on one change at a time: apply it, verify (a)-(d) yourself by actually running the commands, save the deliverables, then `git checkout -- synced_collections` before starting the next. Leave the worktree with NO uncommitted change in synced_collections/ when you are done. Keep your final answer short: for each change one line with its kind and whether all of (a)-(d) were verified.""")
+Work on one change at a time: apply it, verify (a)-(d) yourself by actually running the commands, save the deliverables, then `git checkout -- synced_collections` before starting the next (NEVER use `git stash`: the stash is shared by several worktrees of this repository in which other people work at the same time; use `git diff > file` and `git apply` / `git apply -R`). Leave the worktree with NO uncommitted change in synced_collections/ when you are done. Keep your final answer short: for each change one line with its kind and whether all of (a)-(d) were verified.""")
